@@ -248,3 +248,44 @@ package badger
 //@   assert[locked-cleanup] before call cleanupCommittedTransactions : held(o.Mutex)
 //@   assert[locked-begin] before call Begin : held(o.Mutex) && arg0 == o.txnMark && arg1 == old(o.nextTxnTs)
 //@   assigns held(o.Mutex), o.nextTxnTs, o.lastCleanupTs, o.committedTxns, o.committedTxns[0:cap(o.committedTxns)], txn.doneRead, o.txnMark.lastIndex.v
+
+// ---- what reaches the memtable (C06, C28, C10) ----
+
+// Layout of the 12-byte value pointer (unsafe copy of the struct; assumed, little endian).
+//@ spec le32(s []byte, off int) uint32 = uint32(s[off]) | uint32(s[off+1])<<8 | uint32(s[off+2])<<16 | uint32(s[off+3])<<24
+//@ trusted func (valuePointer).Encode
+//@   ensures len(result) == 12 && fresh(result)
+//@   ensures le32(result, 0) == p.Fid && le32(result, 4) == p.Len && le32(result, 8) == p.Offset
+
+// An inline entry is stored with its value, user meta and expiry and without the pointer bit;
+// a value-log entry is stored as the pointer the value log returned for it, with the pointer
+// bit; nothing else differs. The index into b.Ptrs is in range (no value log in memory mode).
+//@ func (*DB).writeToLSM
+//@   props C06 C28 C10
+//@   requires b != nil && db.mt != nil && db.threshold != nil
+//@   requires[entries] forall i int :: 0 <= i && i < len(b.Entries) ==> b.Entries[i] != nil
+//@   loop 1 invariant[range] -1 <= rangeindex && rangeindex < len(b.Entries)
+//@   loop 1 invariant[entries] forall i int :: 0 <= i && i < len(b.Entries) ==> b.Entries[i] != nil
+//@   loop 1 invariant[ptrs] !db.opt.InMemory ==> len(b.Ptrs) == len(b.Entries)
+//@   assert[inline-value] before call Put#1 : arg1 == entry.Key && arg2.Value == entry.Value && arg2.Meta == entry.meta &^ bitValuePointer && arg2.UserMeta == entry.UserMeta && arg2.ExpiresAt == entry.ExpiresAt
+//@   assert[pointer-value] before call Put#2 : arg1 == entry.Key && arg2.Value == ret(Encode#1) && arg2.Meta == entry.meta | bitValuePointer && arg2.UserMeta == entry.UserMeta && arg2.ExpiresAt == entry.ExpiresAt
+//@   assert[pointer-of-entry] before call Encode : arg0 == b.Ptrs[i]
+//@   assert[synced-before-ack] before return : db.opt.SyncWrites && result == nil ==> called(SyncWAL#1)
+//@   assigns everything
+
+//@ constglobal txnKey "!badger!txn"
+
+// A new transaction starts with the end-of-transaction entry accounted for: one entry, and
+// room for its key (txnKey plus the 8-byte version), its value (the commit timestamp in
+// decimal, at most 20 digits) and the two meta bytes. It can establish what Txn.modify needs.
+//@ func (*DB).newTransaction
+//@   props C28 C04 C36
+//@   requires db.orc != nil && (!isManaged ==> !db.orc.isManaged && db.orc.readMark != nil && db.orc.txnMark != nil)
+//@   ensures[fresh] result != nil && fresh(result) && result.db == db && !result.discarded
+//@   ensures[fin-counted] result.count == 1
+//@   ensures[fin-reserved] result.size >= int64(len(txnKey)) + 8 + 20 + 2
+//@   ensures[update] result.update == (update && !db.opt.ReadOnly)
+//@   ensures[maps] result.update ==> result.pendingWrites != nil && len(result.pendingWrites) == 0 && allnonnil(result.pendingWrites) && (db.opt.DetectConflicts ==> result.conflictKeys != nil)
+//@   ensures[read-ts] !isManaged ==> result.readTs == old(db.orc.nextTxnTs) - 1
+//@   ensures[managed-read-ts] isManaged ==> result.readTs == 0
+//@   assigns held(db.orc.Mutex), db.orc.readMark.lastIndex.v, db.orc.txnMark.doneUntil.v
